@@ -137,6 +137,8 @@ func runC01Exact(c *Ctx) {
 					bad = append(bad, fmt.Sprintf("%s: the float measure (%s) is truncated to %s before it is compared", p.Pos(cv.Pos()), src, tb.Name()))
 				case !ff && !tf && (tn < fn_ || (fs != ts && !(ts && tn > fn_))):
 					bad = append(bad, fmt.Sprintf("%s: the %s measure (%s) is converted to %s before it is compared: values outside %s wrap", p.Pos(cv.Pos()), fb.Name(), src, tb.Name(), tb.Name()))
+				case !ff && !tf && lossyIntConv(fb, tb) != "":
+					bad = append(bad, fmt.Sprintf("%s: the %s measure (%s) is converted to %s before it is compared: %s — on a 32-bit platform an int64 value and the same value plus 2^32 get the same verdict", p.Pos(cv.Pos()), fb.Name(), src, tb.Name(), lossyIntConv(fb, tb)))
 				}
 			}
 		}
